@@ -104,9 +104,9 @@ def _next_bound_index(benv):
 
 class Normaliser:
     def __init__(self, fn, module_consts: Optional[dict] = None, helpers: Optional[dict] = None, depth: int = 0, methods: Optional[dict] = None):
-        self.methods = methods or {}
+        self.methods = {k_: _prepassed_helper(h_) for k_, h_ in (methods or {}).items()} if depth == 0 else (methods or {})
         self.consts = module_consts or {}
-        self.helpers = helpers or {}
+        self.helpers = {k_: _prepassed_helper(h_) for k_, h_ in (helpers or {}).items()} if depth == 0 else (helpers or {})
         self.depth = depth
         self.n_eff = 0
         self.work = 0
@@ -456,6 +456,8 @@ class Normaliser:
                     pos_, t_ = self.test(c, e2)
                     if pos_ and isinstance(t_, tuple) and len(t_) == 3 and t_[0] == "bool" and t_[1] == "And":
                         conds.extend(t_[2])
+                    elif not pos_ and isinstance(t_, tuple) and len(t_) == 3 and t_[0] == "bool" and t_[1] == "Or":
+                        conds.extend(o_[1] if (isinstance(o_, tuple) and len(o_) == 2 and o_[0] == "not") else ("not", o_) for o_ in t_[2])   # not (a or b) is `if not a if not b`
                     else:
                         conds.append(t_ if pos_ else ("not", t_))
                 gens.append((tv, it, tuple(conds)))
@@ -2100,7 +2102,12 @@ def _inline_leading_temps(body, keep=None):
             return None
         if _uses(st.value, nm) or any(isinstance(x, ast.Name) and x.id == nm and isinstance(x.ctx, ast.Store) for s2 in body[1:] for x in ast.walk(s2)):
             return None
-        if any(isinstance(x, (ast.Lambda, ast.ListComp, ast.GeneratorExp, ast.SetComp, ast.DictComp)) for s2 in body[1:] for x in ast.walk(s2)):
+        if any(isinstance(x, ast.Lambda) for s2 in body[1:] for x in ast.walk(s2)):
+            return None
+        # substituting into a comprehension is fine as long as the comprehension binds neither the temporary nor a name its value mentions
+        val_names = {x.id for x in ast.walk(st.value) if isinstance(x, ast.Name)} | {nm}
+        comp_bound = {y.id for s2 in body[1:] for x in ast.walk(s2) if isinstance(x, ast.comprehension) for y in ast.walk(x.target) if isinstance(y, ast.Name)}
+        if comp_bound & val_names:
             return None
         body = [_Sub(nm, st.value).visit(copy.deepcopy(s2)) for s2 in body[1:]]
     return body
@@ -2116,10 +2123,16 @@ def _loop_as_comprehension(s, lp, read_outside=None):
     if not (is_list or is_dict):
         return None
     body, conds = lp.body, []
-    while len(body) == 1 and isinstance(body[0], ast.If) and not body[0].orelse:
-        conds.append(body[0].test)
-        body = body[0].body
-    body = _inline_leading_temps(body, read_outside)
+    for _ in range(12):   # conditions and temporaries of the iteration may alternate: `t = e; if c(t): u = f(t); if d(u): L.append(..)`
+        if len(body) == 1 and isinstance(body[0], ast.If) and not body[0].orelse:
+            conds.append(body[0].test)
+            body = body[0].body
+        elif len(body) > 1:
+            body = _inline_leading_temps(body, read_outside)
+            if body is None:
+                return None
+        else:
+            break
     if body is None or len(body) != 1 or any(_uses(c, nm) for c in conds) or _uses(lp.iter, nm):
         return None
     b = body[0]
@@ -2263,6 +2276,31 @@ def _free_names(helper) -> set:
         for ch in ast.iter_child_nodes(n):
             rec(ch, bound)
     rec(helper, frozenset(loc))
+    return out
+
+
+_PREPASSED: Dict[int, tuple] = {}
+
+
+def _prepassed_helper(h):
+    """the helper with the expression-level rewrites of the pre-pass applied to its body (comparisons of evident integers, min/max, formats ...): what is
+    inlined from it then has the same spelling as when it is written in place.  Loops are left alone (a helper's loop is not turned into a comprehension here:
+    whether the helper is loop-free decides how it is inlined)."""
+    hit = _PREPASSED.get(id(h))
+    if hit is not None and hit[0] is h:
+        return hit[1]
+    out = h
+    try:
+        if not any(isinstance(x, (ast.For, ast.While)) for x in ast.walk(h)):
+            out = prepass(h)
+            if getattr(h, "lineno", None) is not None:
+                out.lineno = h.lineno
+    except (Unsupported, RecursionError):
+        out = h
+    if len(_PREPASSED) > 4000:
+        _PREPASSED.clear()
+    _PREPASSED[id(h)] = (h, out)
+    _PREPASSED[id(out)] = (out, out)
     return out
 
 
